@@ -454,6 +454,70 @@ def api_expand(hist):
     return part, key, bad
 
 
+def big_directory(item):
+    """directories with hundreds of entries (more than any batch or buffer a backend may use internally): both file-system
+    backends list exactly the same names - at the API (awaited and iterated) and behind the server (MLSD, LIST)"""
+    n, = item
+    import aioftp
+    part = report.Partial()
+    names = sorted(f"e{k:04d}" for k in range(n))
+    with backends.TempDir() as root:
+        (root / "big").mkdir()
+        for nm in names:
+            (root / "big" / nm).write_bytes(b"")
+        got = {}
+        for kind in ("pathio", "async"):
+            w = World()
+            try:
+                pio = aioftp.PathIO() if kind == "pathio" else aioftp.AsyncPathIO()
+
+                async def both():
+                    awaited = sorted(x.name for x in await pio.list(root / "big"))
+                    iterated = []
+                    async for x in pio.list(root / "big"):
+                        iterated.append(x.name)
+                    return awaited, sorted(iterated)
+                got[kind] = w.run(both())
+            finally:
+                w.close()
+        part.evaluations += 2
+        part.traces += 2
+        part.transitions += 4 * n
+        k = report.fp(["big-directory", n])
+        part.states.add(k)
+        part.nontrivial.add(k)
+        for kind, (awaited, iterated) in got.items():
+            for how, lst in (("awaited", awaited), ("iterated", iterated)):
+                if lst != names:
+                    missing = sorted(set(names) - set(lst))[:5]
+                    part.violation({"kind": "fs-backends-disagree", "op": "list", "entries": n},
+                                   {"backend": kind, "how": how, "listed": len(lst), "entries": n, "missing": missing,
+                                    "duplicates": len(lst) - len(set(lst))}, replay={"big": [n]})
+                    return part
+    # ... and behind the server
+    from vf.rig import Rig
+    for backend in ("pathio", "async"):
+        rig = Rig(tree={"big": {nm: b"" for nm in names}}, backend=backend, server_kwargs={"wait_future_timeout": 1})
+        try:
+            rig.ev(0, "@connect")
+            rig.ev(0, "USER anonymous")
+            for verb in ("MLSD big", "LIST big"):
+                rig.ev(0, "EPSV")
+                rig.ev(0, "@data")
+                r = rig.ev(0, verb) or []
+                data = rig.sessions[0].data.received if rig.sessions[0].data is not None else b""
+                listed = sorted(parse_names(verb.split(" ")[0].lower(), data))
+                part.evaluations += 1
+                if [c for c, _ in r][-1:] not in (["226"], ["200"]) or listed != names:
+                    part.violation({"kind": "backends-disagree", "verb": verb.split(" ")[0], "field": "names", "backend": backend},
+                                   {"entries": n, "listed": len(listed), "codes": [c for c, _ in r],
+                                    "missing": sorted(set(names) - set(listed))[:5]}, replay={"big": [n]})
+                    return part
+        finally:
+            rig.close()
+    return part
+
+
 def api_bfs(depth, cap, ops=None, start=None, label="api"):
     ops = API_OPS if ops is None else ops
     total = report.Partial()
@@ -486,6 +550,7 @@ def run(tier, seed, t0):
         parts = [bfs(4, 300000), api_bfs(3, 200000)]
     parts.append(api_bfs(2 if tier == "quick" else 3, 20000 if tier == "quick" else 200000, ops=LINK_OPS,
                          start=[("@links",)], label="api_links"))
+    parts += report.pmap(big_directory, [(n,) for n in ((255, 256, 257, 600) if tier == "quick" else (255, 256, 257, 512, 513, 600, 1025, 3000))])
     parts.append(two_sessions(tier))
     parts += report.pmap(timeout_work, [(sym, 1 if tier == "quick" else 3) for sym in TIMEOUT_SYMS])
     part = report.merge_all(parts)
@@ -514,6 +579,10 @@ def replay(path):
         print(json.dumps(res["problems"], indent=1, default=repr))
         return 1 if res["problems"] else 0
     rp = data["replay"]
+    if "big" in rp:
+        part = big_directory(tuple(rp["big"]))
+        print(json.dumps([v["detail"] for v in part.violations], indent=1, default=repr))
+        return 1 if part.violations else 0
     if "api" in rp:
         part, key, bad = api_expand([tuple(o) for o in rp["api"]])
     else:
